@@ -17,7 +17,7 @@ PROP = "C11"
 
 
 def plan(tier, seed):
-    k = 12 if tier == "quick" else 450
+    k = 30 if tier == "quick" else 600
     shards = []
     for kind in ("event", "cancel", "dividend", "oversize"):
         shards += [{"kind": kind, "seed": seed, "shard": i, "n": 150} for i in range(k)]
